@@ -423,9 +423,67 @@ PIP = "mlearning/transformers/pipeline.py"
 MOE = "mlearning/regression/algos/moe.py"
 
 
-def _stages(loop: ast.For, seq: str):
+def _int_value(e: ast.AST, env: dict, length: str):
+    """The integer an index expression stands for: integers, the names of ``env``, ``len(seq)`` (text ``length``, value
+    env["#len"]) combined by + - unary - ~ and products with a constant (so: an affine expression); None otherwise."""
+    v = _int(e)
+    if v is not None:
+        return v
+    if isinstance(e, ast.Name):
+        return env.get(e.id)
+    if isinstance(e, ast.Call):
+        return env["#len"] if norm_stmt(e) == length else None
+    if isinstance(e, ast.UnaryOp) and isinstance(e.op, (ast.USub, ast.UAdd, ast.Invert)):
+        v = _int_value(e.operand, env, length)
+        return None if v is None else -v if isinstance(e.op, ast.USub) else ~v if isinstance(e.op, ast.Invert) else v
+    if isinstance(e, ast.BinOp) and isinstance(e.op, (ast.Add, ast.Sub, ast.Mult)):
+        if isinstance(e.op, ast.Mult) and _int(e.left) is None and _int(e.right) is None:
+            return None
+        a, b = _int_value(e.left, env, length), _int_value(e.right, env, length)
+        if a is None or b is None:
+            return None
+        return a + b if isinstance(e.op, ast.Add) else a - b if isinstance(e.op, ast.Sub) else a * b
+    return None
+
+
+def _index_order(it: ast.AST, ivar: str, idx: ast.AST, seq: str):
+    """Visited last to first? when ``seq[idx]``, ``ivar`` running over the iterable ``it`` (a range over affine bounds,
+    possibly reversed), is every element of ``seq`` once, in order (False) or in reverse order (True); None otherwise.
+    Decided by running the indices for the lengths 0..6: bounds and index are affine in (ivar, len(seq)) and every
+    index must be a valid one, so what holds for these lengths holds for all."""
+    length = f"len({seq})"
+
+    def values(e, n):
+        if isinstance(e, ast.Call) and not e.keywords and dotted(e.func) in ("reversed", "list", "tuple") and len(e.args) == 1:
+            v = values(e.args[0], n)
+            return v[::-1] if v is not None and dotted(e.func) == "reversed" else v
+        if isinstance(e, ast.Call) and not e.keywords and dotted(e.func) == "range" and 1 <= len(e.args) <= 3:
+            a = [_int_value(x, {"#len": n}, length) for x in e.args]
+            if any(x is None for x in a) or (len(a) == 3 and a[2] == 0):
+                return None
+            return list(range(*a))
+        return None
+
+    dirs = {False, True}
+    for n in range(7):
+        vs = values(it, n)
+        if vs is None:
+            return None
+        pos = []
+        for i in vs:
+            p = _int_value(idx, {ivar: i, "#len": n}, length)
+            if p is None or not -n <= p < n:
+                return None
+            pos.append(p % n)
+        dirs &= {r for r in (False, True) if pos == (list(range(n))[::-1] if r else list(range(n)))}
+    return next(iter(dirs)) if len(dirs) == 1 else None
+
+
+def _stages(loop: ast.For, seq: str, sv: SymValues | None = None):
     """(text of the current element, visited last to first?) when ``loop`` visits every element of ``seq`` once, in order
-    or in reverse order, by element, by enumerate or by index; None otherwise."""
+    or in reverse order, by element, by enumerate or by index (any affine index over any range that amounts to it:
+    seq[i] over range(len(seq)), seq[-i] over range(1, len(seq) + 1), seq[len(seq) - 1 - i], seq[~i], ...); None
+    otherwise.  ``sv`` (the unfolding of the function of the loop) lets bounds and indices go through locals."""
 
     def whole(e, rev=False):  # (expr, reversed?) -> reversed? when e is seq possibly reversed / copied
         if isinstance(e, ast.Call) and dotted(e.func) in ("list", "tuple") and len(e.args) == 1 and not e.keywords:
@@ -440,32 +498,73 @@ def _stages(loop: ast.For, seq: str):
             return None
         return rev if norm_stmt(e) == seq else None
 
-    def indices(e, rev=False):  # e enumerates the indices of seq: range(len(seq)), reversed(..), range(len(seq) - 1, -1, -1)
-        if isinstance(e, ast.Call) and dotted(e.func) == "reversed" and len(e.args) == 1 and not e.keywords:
-            return indices(e.args[0], not rev)
-        if not (isinstance(e, ast.Call) and dotted(e.func) == "range" and not e.keywords):
-            return None
-        n = f"len({seq})"
-        a = [norm_stmt(x) for x in e.args]
-        if a in ([n], ["0", n], ["0", n, "1"]):
-            return rev
-        if a == [f"{n} - 1", "-1", "-1"]:
-            return not rev
-        return None
-
     it, tg = loop.iter, loop.target
     if isinstance(tg, ast.Name):
         r = whole(it)
         if r is not None:
             return tg.id, r
-        r = indices(it)
-        if r is not None:
-            return f"{seq}[{tg.id}]", r
+        # by index: the one element seq[<index>] the body reads, the loop variable left alone
+        subs = [n for st in loop.body for n in ast.walk(st) if isinstance(n, ast.Subscript) and norm_stmt(n.value) == seq and tg.id in names_in(n.slice)]
+        rebound = any(isinstance(n, ast.Name) and n.id == tg.id and not isinstance(n.ctx, ast.Load) for st in loop.body for n in ast.walk(st))
+        if subs and len({norm_stmt(n) for n in subs}) == 1 and not rebound:
+            its = sv.exprs(it) if sv is not None else [it]
+            idxs = sv.exprs(subs[0].slice) if sv is not None else [subs[0].slice]
+            r = _index_order(its[0], tg.id, idxs[0], seq) if len(its) == 1 and len(idxs) == 1 else None
+            if r is not None:
+                return norm_stmt(subs[0]), r
     if isinstance(tg, ast.Tuple) and len(tg.elts) == 2 and all(isinstance(e, ast.Name) for e in tg.elts) and isinstance(it, ast.Call) and dotted(it.func) == "enumerate" and len(it.args) == 1 and not it.keywords:
         r = whole(it.args[0])
         if r is not None:
             return tg.elts[1].id, r
     return None
+
+
+def _reduce_as_loop(f: ast.AST) -> ast.AST:
+    """``f`` with a fold spelled ``reduce(lambda acc, x: body, xs, init)`` (a statement of its body returning or assigning
+    it) written as the loop reduce runs: ``acc = init; for x in xs: acc = body``; ``f`` itself when there is none."""
+    import copy
+
+    body, changed = [], False
+    for st in f.body:
+        v = st.value if isinstance(st, (ast.Return, ast.Assign)) else None
+        lam = v.args[0] if isinstance(v, ast.Call) and dotted(v.func) in ("reduce", "functools.reduce") and len(v.args) == 3 and not v.keywords else None
+        a = lam.args if isinstance(lam, ast.Lambda) else None
+        if a is None or len(a.args) != 2 or a.posonlyargs or a.kwonlyargs or a.vararg or a.kwarg or a.defaults:
+            body.append(st)
+            continue
+        acc, x = a.args[0].arg, a.args[1].arg
+        # the two names become locals of f: they must not capture anything
+        others = set().union(*(names_in(o) for o in f.body if o is not st)) if isinstance(st, ast.Assign) else set()
+        if acc == x or {acc, x} & (names_in(v.args[1]) | others) or (isinstance(st, ast.Assign) and not (len(st.targets) == 1 and isinstance(st.targets[0], ast.Name))):
+            body.append(st)
+            continue
+        name = lambda n, c: ast.Name(id=n, ctx=c)  # noqa: E731
+        new = [
+            ast.Assign(targets=[name(acc, ast.Store())], value=copy.deepcopy(v.args[2])),
+            ast.For(target=name(x, ast.Store()), iter=copy.deepcopy(v.args[1]), body=[ast.Assign(targets=[name(acc, ast.Store())], value=copy.deepcopy(lam.body))], orelse=[]),
+            ast.Return(value=name(acc, ast.Load())) if isinstance(st, ast.Return) else ast.Assign(targets=[copy.deepcopy(st.targets[0])], value=name(acc, ast.Load())),
+        ]
+        body += [ast.fix_missing_locations(ast.copy_location(n, st)) for n in new]
+        changed = True
+    if not changed:
+        return f
+    g = copy.copy(f)
+    g.body = body
+    return g
+
+
+def _entering(f: ast.AST, loop: ast.For, name: str) -> list[str] | None:
+    """The values (texts, locals unfolded) the local ``name`` may have when ``loop``, a statement of the body of ``f``,
+    is entered; None when the loop is not a statement of the body itself."""
+    import copy
+
+    if not any(s is loop for s in f.body):
+        return None
+    pre = f.body[: next(k for k, s in enumerate(f.body) if s is loop)]
+    ret = ast.Return(value=ast.Name(id=name, ctx=ast.Load()))
+    fn = ast.FunctionDef(name="_before", args=copy.deepcopy(f.args), body=[*copy.deepcopy(pre), ret], decorator_list=[], type_params=[])
+    fn = ast.fix_missing_locations(ast.copy_location(fn, f))
+    return sorted(ast.unparse(e) for e in SymValues(fn).exprs(ret.value))
 
 
 def _after_one_pass(loop: ast.For, names: list[str]) -> list[list[ast.AST]] | None:
@@ -509,7 +608,7 @@ def check_pipeline(ctx: Ctx) -> None:
     """18.3 chain rule of a pipeline of transformers: J = J_k(data_k) ... J_1(data_1), each stage at its own input."""
     cls = ctx.index.cls(PIP, "Pipeline")
     for jname, tname, reverse in (("compute_jacobian", "transform", False), ("compute_jacobian_inverse", "inverse_transform", True)):
-        f = cls.methods[jname]
+        f = _reduce_as_loop(cls.methods[jname])
         con = cname(PIP, "Pipeline", jname)
         data = [a.arg for a in f.args.args if a.arg != "self"][0]
         loops = [s for s in stmts_of(f) if isinstance(s, ast.For)]
@@ -519,30 +618,36 @@ def check_pipeline(ctx: Ctx) -> None:
         order_ok = prod_ok = at_ok = False
         if ok:
             lp = loops[0]
-            st = _stages(lp, "self.transformers")
+            st = _stages(lp, "self.transformers", SymValues(f))
             order_ok = st is not None and st[1] == reverse
             # one pass through the body: (accumulated Jacobian, running data) -> (J_stage(data) @ Jacobian, stage(data))
-            after = _after_one_pass(lp, [acc, data]) if st is not None else None
+            after = _after_one_pass(lp, [acc]) if st is not None else None
             if after is not None and len(after) == 1:
                 t = st[0]
-                new_acc, new_data = after[0]
-                lr = _product(new_acc)
+                lr = _product(after[0][0])
                 # new stage on the left: J_stage @ acc   (or matmul / dot forms)
                 prod_ok = lr is not None and _applies(lr[0], f"{t}.{jname}", None) and norm_stmt(lr[1]) == acc
-                # ``data`` in these expressions is the data at the START of the pass, i.e. the data entering the stage
-                at_ok = prod_ok and _applies(lr[0], f"{t}.{jname}", data) and _applies(new_data, f"{t}.{tname}", data)
+                # the running data: the local the stage Jacobian is evaluated at.  In these expressions it is its value at
+                # the START of the pass, i.e. the data entering the stage; it enters the loop as the argument of the method
+                run = _only_argument(lr[0], "data") if prod_ok else None
+                run = run.id if isinstance(run, ast.Name) and run.id != acc else None
+                after = _after_one_pass(lp, [run]) if run is not None else None
+                at_ok = after is not None and len(after) == 1 and _applies(after[0][0], f"{t}.{tname}", run) and _entering(f, lp, run) == [data]
         ctx.ob("18.3-pipeline", con, bool(ok and order_ok), f"{jname} must visit the transformers in the order in which {tname} applies them ({'last to first' if reverse else 'first to last'})", node=(loops or [f])[0], stmt=f"{jname}: stages in the order of {tname}")
         ctx.ob("18.3-pipeline", con, bool(prod_ok), "chain rule: the Jacobian of the stage multiplies the accumulated Jacobian on the LEFT (J_stage @ J); the other order is only right when the stage Jacobians commute", node=(loops or [f])[0], stmt=f"{jname}: J = J_stage @ J")
         ctx.ob("18.3-pipeline", con, bool(at_ok), "each stage Jacobian is evaluated at the data entering that stage: the Jacobian statement comes before the data is transformed, both on the running data", node=(loops or [f])[0], stmt=f"{jname}: stage Jacobian at the stage input")
-        g = cls.methods[tname]
+        g = _reduce_as_loop(cls.methods[tname])
         lg = [s for s in stmts_of(g) if isinstance(s, ast.For)]
-        stg = _stages(lg[0], "self.transformers") if len(lg) == 1 else None
+        stg = _stages(lg[0], "self.transformers", SymValues(g)) if len(lg) == 1 else None
         okg = stg is not None and stg[1] == reverse
         if okg:
+            # the running value: the local that is returned; it enters the loop as the argument of the method and one
+            # pass replaces it by the stage applied to it
             dg = [a.arg for a in g.args.args if a.arg != "self"][0]
-            after = _after_one_pass(lg[0], [dg])
             rg = [s for s in stmts_of(g) if isinstance(s, ast.Return)]
-            okg = after is not None and len(after) == 1 and _applies(after[0][0], f"{stg[0]}.{tname}", dg) and len(rg) == 1 and dotted(rg[0].value) == dg
+            run = rg[0].value.id if len(rg) == 1 and isinstance(rg[0].value, ast.Name) else None
+            after = _after_one_pass(lg[0], [run]) if run is not None else None
+            okg = after is not None and len(after) == 1 and _applies(after[0][0], f"{stg[0]}.{tname}", run) and _entering(g, lg[0], run) == [dg]
         ctx.ob("18.3-pipeline", cname(PIP, "Pipeline", tname), okg, f"{tname} applies the transformers {'last to first' if reverse else 'first to last'}", node=(lg or [g])[0], stmt=f"{tname}: order of the stages")
 
 
@@ -553,26 +658,44 @@ def check_moe(ctx: Ctx) -> None:
     loops = [s for s in stmts_of(f) if isinstance(s, ast.For) and isinstance(s.target, ast.Name)]
     ok = False
     node = f
+    sv = SymValues(f)
+    points = [a.arg for a in f.args.args if a.arg != "self"][0]
+
+    def one(e):  # the single unfolded alternative of an expression (of an index: slices as they are), None when several
+        if isinstance(e, ast.Slice):
+            return e
+        if isinstance(e, ast.Tuple) and any(isinstance(x, ast.Slice) for x in e.elts):
+            elts = [one(x) for x in e.elts]
+            return None if any(x is None for x in elts) else ast.Tuple(elts=elts, ctx=ast.Load())
+        alts = sv.exprs(e)
+        return alts[0] if len(alts) == 1 else None
+
     for lp in loops:
         node = lp
         k = lp.target.id
-        it = lp.iter
-        classes = dotted(it.args[0]) if isinstance(it, ast.Call) and last_attr(it) in ("unique", "set", "sorted") and it.args else None
-        if classes is None:
+        # the loop visits the labels found by the classifier: unique(labels), set(labels), sorted(set(labels)), ...
+        labels = whole = one(lp.iter)
+        while isinstance(labels, ast.Call) and not labels.keywords and len(labels.args) == 1 and last_attr(labels) in ("unique", "set", "frozenset", "sorted", "list", "tuple"):
+            labels = labels.args[0]
+        if labels is None or labels is whole or any(isinstance(n, ast.Name) and n.id == k and not isinstance(n.ctx, ast.Load) for st in lp.body for n in ast.walk(st)):
             continue
+        okc = any(isinstance(n, ast.Call) and norm_stmt(n.func) == "self.classifier.predict" for n in ast.walk(labels))
         calls = [c for c in ast.walk(lp) if isinstance(c, ast.Call) and last_attr(c) == "predict_jacobian"]
-        sel = [s for s in lp.body if isinstance(s, ast.Assign) and isinstance(s.targets[0], ast.Name) and any(isinstance(c, ast.Compare) and {dotted(c.left), dotted(c.comparators[0])} == {classes, k} for c in ast.walk(s.value))]
-        if len(calls) != 1 or len(sel) != 1:
+        if len(calls) != 1:
             continue
-        idx = sel[0].targets[0].id
         c = calls[0]
-        model = c.func.value
+        model = one(c.func)
+        model = model.value if isinstance(model, ast.Attribute) else None
         okm = isinstance(model, ast.Subscript) and norm_stmt(model.value) == "self.regress_models" and dotted(model.slice) == k
-        oki = bool(c.args) and isinstance(c.args[0], ast.Subscript) and dotted(c.args[0].slice) == idx
-        st = rules_enclosing(f, c)
-        okt = isinstance(st, ast.Assign) and isinstance(st.targets[0], ast.Subscript) and dotted(st.targets[0].slice) == idx
-        src = [s for s in stmts_of(f) if isinstance(s, ast.Assign) and dotted(s.targets[0]) == classes]
-        okc = len(src) == 1 and "self.classifier.predict" in norm_stmt(src[0].value)
+        at = _only_argument(c, "input_data")
+        at = one(at) if at is not None else None
+        oki = isinstance(at, ast.Subscript) and norm_stmt(at.value) == points and _selects_label(at.slice, ast.unparse(labels), k)
+        # stored at the positions of the same points
+        st = [s for s in ast.walk(lp) if isinstance(s, ast.Assign) and len(s.targets) == 1 and isinstance(s.targets[0], ast.Subscript) and sv.texts(s.value) == sv.texts(c)]
+        okt = len(st) == 1
+        if okt:
+            where = one(st[0].targets[0].slice)
+            okt = where is not None and _selects_label(where, ast.unparse(labels), k)
         ok = okm and oki and okt and okc
     ctx.ob("18.4-moe", con, bool(ok), "the Jacobian rows of the points of cluster k must come from self.regress_models[k] (k the cluster LABEL given by the classifier), evaluated at those points and stored at their positions", node=node, stmt="Jacobian of cluster k from regress_models[k] at the points of cluster k")
     g = ctx.index.method(MOE, "MOERegressor", "_predict_all")
@@ -590,9 +713,34 @@ def check_moe(ctx: Ctx) -> None:
                     stores = [n for n in ast.walk(lp) if isinstance(n, ast.Name) and isinstance(n.ctx, ast.Store) and n.id in (tg.elts[0].id, c.func.value.id)]
                     i = tg.elts[0].id if len(stores) == 2 else None  # neither is re-assigned in the loop
         tgt = st[0].targets[0]
-        sl = tgt.slice.elts[1] if isinstance(tgt.slice, ast.Tuple) and len(tgt.slice.elts) == 2 else None
+        # [:, i] of the 3-d array, the other axes taken whole: [:, i], [:, i, :], [:, i, ...]
+        idx = tgt.slice.elts if isinstance(tgt.slice, ast.Tuple) else []
+        rest_whole = len(idx) == 2 or (len(idx) == 3 and (_is_full_slice(idx[2]) or (isinstance(idx[2], ast.Constant) and idx[2].value is Ellipsis)))
+        sl = idx[1] if len(idx) >= 2 and _is_full_slice(idx[0]) and rest_whole else None
         ok = i is not None and dotted(sl) == i
     ctx.ob("18.4-moe", con, bool(ok), "column i of the local outputs is the prediction of local model i (the probabilities that weight it are indexed by the same cluster label)", node=(st or [g])[0], stmt="local_outputs[:, i] = regress_models[i].predict")
+
+
+def _selects_label(e: ast.AST, labels: str, k: str) -> bool:
+    """``e`` (an index) selects the points whose label is ``k``: the mask ``labels == k``, or its positions
+    (mask.nonzero()[0], nonzero(mask)[0], where(mask)[0], flatnonzero(mask); the 1-tuple of nonzero/where indexes the
+    first axis just as well); as the first index of a tuple whose other axes are taken whole."""
+    if isinstance(e, ast.Tuple) and e.elts and all(_is_full_slice(x) or (isinstance(x, ast.Constant) and x.value is Ellipsis) for x in e.elts[1:]):
+        e = e.elts[0]
+    if isinstance(e, ast.Subscript) and _int(e.slice) == 0 and isinstance(e.value, ast.Call) and last_attr(e.value) in ("nonzero", "where"):
+        e = e.value
+    if isinstance(e, ast.Call) and not e.keywords and last_attr(e) in ("nonzero", "where", "flatnonzero"):
+        if isinstance(e.func, ast.Attribute) and dotted(e.func.value) not in ("np", "numpy"):
+            e = e.func.value if last_attr(e) == "nonzero" and not e.args else None
+        else:
+            e = e.args[0] if len(e.args) == 1 else None
+    if isinstance(e, ast.Call) and not e.keywords and last_attr(e) == "equal" and len(e.args) == 2:
+        sides = e.args
+    elif isinstance(e, ast.Compare) and len(e.ops) == 1 and isinstance(e.ops[0], ast.Eq):
+        sides = [e.left, e.comparators[0]]
+    else:
+        return False
+    return sorted(ast.unparse(x) for x in sides) == sorted([labels, k])
 
 
 def rules_enclosing(f, node):
@@ -616,7 +764,8 @@ def check_openturns_gradients(ctx: Ctx) -> None:
                     continue
                 sv = None
                 parents = None
-                for call in walk_body(m):
+                # nested scopes included: the gradient may be taken in a helper (lambda / nested def) of the method
+                for call in (n_ for st_ in m.body for n_ in ast.walk(st_)):
                     if not (isinstance(call, ast.Call) and len(call.args) == 1 and isinstance(call.args[0], ast.Call) and last_attr(call.args[0]) == "Point"):
                         continue
                     sv = sv or SymValues(m)
